@@ -8,8 +8,9 @@
    fs    = (((path text) ...) (dir ...))
    op    = (N0 d) | (N1 d base) | (N2 p data) | (N3 p) | (N4 p) | (N5 a b)
    lres  = (N0) none | (N1) raised | (N2 config)
-   oracle requests: (N1 bytes)->text  (N2 text)->opt bytes  (N3 dict)->text  (N4 text)->opt dict *)
-From YV Require Import Common.Tac Common.Sx C19.C19Str C19.C19Model.
+   oracle requests: (N3 dict)->text  (N4 text)->opt dict     (json only; base64 is the modelled
+   b64_encode / b64_decode of C19B64.v - requests 1 and 2 are no longer issued) *)
+From YV Require Import Common.Tac Common.Sx C19.C19Str C19.C19B64 C19.C19Model.
 Local Open Scope N_scope.
 
 Definition x_text (s : str) : sx := SL (map SN s).
@@ -80,10 +81,7 @@ Definition g_fmt (x : sx) : fmt := if sx_get_n x =? 1 then KeyVal else Json.
 Definition x_lres (r : lres) : sx :=
   match r with LNone => SL [SN 0] | LErr => SL [SN 1] | LOk c => SL [SN 2; x_config c] end.
 
-(* primitives answered by the harness with the real base64 / json *)
-Definition o_b64enc (oracle : sx -> sx) (b : list N) : str := g_text (oracle (SL [SN 1; SB b])).
-Definition o_b64dec (oracle : sx -> sx) (s : str) : option (list N) :=
-  g_opt sx_get_b (oracle (SL [SN 2; x_text s])).
+(* primitives answered by the harness with the real json *)
 Definition o_jdumps (oracle : sx -> sx) (d : list (str * jval)) : str :=
   g_text (oracle (SL [SN 3; x_dict d])).
 Definition o_jloads (oracle : sx -> sx) (t : str) : option (list (str * jval)) :=
@@ -99,24 +97,40 @@ Definition run_unl (arg : sx) : sx := x_text (unl (g_text arg)).
 Definition run_ext_type (arg : sx) : sx := sx_opt x_fmt (ext_type (g_text arg)).
 Definition run_pjoin (arg : sx) : sx := x_text (pjoin (g_text (sx_nth arg 0)) (g_text (sx_nth arg 1))).
 
-Definition orun_serialize (oracle : sx -> sx) (arg : sx) : sx :=
-  sx_opt x_dict (serialize (o_b64enc oracle) (g_config arg)).
-Definition orun_deserialize (oracle : sx -> sx) (arg : sx) : sx :=
-  sx_opt x_config (deserialize (o_b64dec oracle) (g_dict arg)).
+(* base64, directly: bytes -> text, text -> opt bytes, bytes -> text (MIME flavour) *)
+Definition run_b64enc (arg : sx) : sx := x_text (b64_encode (sx_get_b arg)).
+Definition run_b64dec (arg : sx) : sx := sx_opt SB (b64_decode (g_text arg)).
+Definition run_b64mime (arg : sx) : sx := x_text (b64_mime (sx_get_b arg)).
+(* text -> (all characters in the 65-character alphabet?  legal key=value value?) *)
+Definition run_b64_text_ok (arg : sx) : sx :=
+  SL [sx_bool (forallb b64_char (g_text arg)); sx_bool (value_ok (g_text arg))].
+(* one key=value line: text -> () raises | (()) skipped | ((key jval)) *)
+Definition run_kv_parse_line (arg : sx) : sx :=
+  sx_opt (sx_opt (fun kv => SL [x_text (fst kv); x_jval (snd kv)])) (kv_parse_line (g_text arg)).
+
+Definition run_serialize (arg : sx) : sx :=
+  sx_opt x_dict (serialize b64_encode (g_config arg)).
+Definition run_deserialize (arg : sx) : sx :=
+  sx_opt x_config (deserialize b64_decode (g_dict arg)).
+(* key=value end to end without any oracle: config -> opt text;  text -> opt config *)
+Definition run_kv_to_str (arg : sx) : sx :=
+  sx_opt x_text (option_map kv_print (serialize b64_encode (g_config arg))).
+Definition run_kv_load_text (arg : sx) : sx :=
+  sx_opt x_config (obind (kv_parse (unl (g_text arg))) (deserialize b64_decode)).
 (* (fmt config) -> opt text *)
 Definition orun_to_str (oracle : sx -> sx) (arg : sx) : sx :=
-  sx_opt x_text (config_to_str (o_b64enc oracle) (o_jdumps oracle) (g_fmt (sx_nth arg 0))
+  sx_opt x_text (config_to_str b64_encode (o_jdumps oracle) (g_fmt (sx_nth arg 0))
                                (g_config (sx_nth arg 1))).
 (* (by_content path text) -> lres *)
 Definition orun_load_text (oracle : sx -> sx) (arg : sx) : sx :=
-  x_lres (load_text (o_b64dec oracle) (o_jloads oracle) (sx_get_bool (sx_nth arg 0))
+  x_lres (load_text b64_decode (o_jloads oracle) (sx_get_bool (sx_nth arg 0))
                     (g_text (sx_nth arg 1)) (g_text (sx_nth arg 2))).
 (* (fs root name profile_only) -> lres *)
 Definition orun_load (oracle : sx -> sx) (arg : sx) : sx :=
-  x_lres (load (o_b64dec oracle) (o_jloads oracle) (g_fs (sx_nth arg 0)) (g_text (sx_nth arg 1))
+  x_lres (load b64_decode (o_jloads oracle) (g_fs (sx_nth arg 0)) (g_text (sx_nth arg 1))
                (g_text (sx_nth arg 2)) (sx_get_bool (sx_nth arg 3))).
 Definition orun_load_unfixed (oracle : sx -> sx) (arg : sx) : sx :=
-  x_lres (load_unfixed (o_b64dec oracle) (o_jloads oracle) (g_fs (sx_nth arg 0))
+  x_lres (load_unfixed b64_decode (o_jloads oracle) (g_fs (sx_nth arg 0))
                        (g_text (sx_nth arg 1)) (g_text (sx_nth arg 2))).
 (* (fs root name text) -> (op ...) *)
 Definition run_save_prog (arg : sx) : sx :=
